@@ -95,6 +95,8 @@ def render_atom(a, model):
 # --------------------------------------------------------------------------- scheduler
 def _worker(inq, outq, registry_mod):
     import importlib
+    import logging
+    logging.disable(logging.CRITICAL)
     mod = importlib.import_module(registry_mod)
     while True:
         job = inq.get()
@@ -105,7 +107,10 @@ def _worker(inq, outq, registry_mod):
         t0 = time.time()
         res = new_result(item)
         try:
-            fn = mod.HARNESSES[item.harness]
+            fn = mod.HARNESSES.get(item.harness)
+            if fn is None:
+                from . import selfcheck
+                fn = selfcheck.HARNESSES[item.harness]
             r = fn(item, res)
             if r is not None:
                 res = r
